@@ -628,10 +628,8 @@ def run(ctx):
             payload = {"wbxml": c["doc"].hex(), "forced": c["forced"], "mode": [g, ind], "keep_ws": kw, "xml": xml_bytes.decode("utf-8", "replace")[:2000],
                        "oracle": det, "kind": det["kind"], "case_kind": c["kind"]}
             payload["shapes"] = sorted(sh)
-            if "binary-later-text" in sh and det["kind"] in ("not-well-formed", "text", "children", "kind") and not ctx.known("binary-later-text-fixed"):
-                pending_hits.setdefault("binary-later-text", []).append(payload)
-            else:
-                concrete.append(payload)
+            # the binary-later-text finding (D32) was repaired in /repo (093ad9f): an ordinary violation now
+            concrete.append(payload)
     for cr in crashes:
         concrete.append({"kind": "crash-or-sanitizer-report", **cr})
 
